@@ -16,7 +16,7 @@ RULE = ("histories of ~18 steps over 1-3 proxies and 1-5 concurrently open strea
         "{0,5} x ITER_STREAM_LINGER {0,3} x both server types. distinct = (history hash, step); non-trivial = the step concerns an open stream")
 ASSUMPTIONS = ["the virtual clock starts at 1e9 (a linger stamp of 0 means 'none' in Pyro's code)", "after every client-side disconnect / oneway close the harness waits for the server-side event (10 s watchdog, expiry = inconclusive)",
                "a stream whose deadline has passed may be forgotten at any time until the next explicit housekeeping step, after which it must be gone"]
-REQUIRED_REACH = ["items_ok", "stopiteration_ok", "generator_exception_ok", "forgotten_ok", "reconnect_continues", "linger_expired", "lifetime_expired", "table_checked", "streaming_disabled_ok", "racing_reconnects", "server_ended_connections", "housekeeping_during_fetch", "histories_under_one_correlation_id", "concurrent_streams_checked", "slow_item_streams_checked", "natural_housekeeping_ok"]
+REQUIRED_REACH = ["histories_with_failing_disconnect_hook", "items_ok", "stopiteration_ok", "generator_exception_ok", "forgotten_ok", "reconnect_continues", "linger_expired", "lifetime_expired", "table_checked", "streaming_disabled_ok", "racing_reconnects", "server_ended_connections", "housekeeping_during_fetch", "histories_under_one_correlation_id", "concurrent_streams_checked", "slow_item_streams_checked", "natural_housekeeping_ok"]
 SHARD_TIMEOUT = {"quick": 240, "thorough": 3000}
 
 
@@ -128,6 +128,15 @@ def run_history(fx, vclock, rec, r, cfg, nsteps, hh):
     P.callcontext.current_context.correlation_id = _uuid.UUID(int=r.randrange(1, 2 ** 64)) if r.random() < 0.5 else None
     if P.callcontext.current_context.correlation_id:
         rec.count("histories_under_one_correlation_id")
+    # in a third of the histories the application's own clientDisconnect hook fails every time (the servers log that and go on): the daemon's
+    # book-keeping of the departed connection's streams must be done all the same
+    if r.random() < 0.33:
+        rec.count("histories_with_failing_disconnect_hook")
+        pay["hook_fails"] = True
+
+        def failing_hook(conn):
+            raise RuntimeError("application clientDisconnect hook failed")
+        d.on_disconnect = failing_hook
 
     def connect(i):
         p = proxies[i]
@@ -453,6 +462,7 @@ def run_history(fx, vclock, rec, r, cfg, nsteps, hh):
             except Exception:
                 pass
         fx.wait_until(lambda: fx.live_connection_count() == 0, 5.0)
+        d.on_disconnect = None
         d.streaming_responses.clear()
 
 
